@@ -50,6 +50,7 @@ func verifDoc(f, k int) (string, []string) {
 }
 
 type verifFileState struct {
+	invalidNow bool      // the latest content of the file does not parse / type-check
 	lastValid []string   // names of the last valid version delivered (nil = none)
 	valid     [][]string // all valid versions delivered so far
 	removed   bool
@@ -123,7 +124,7 @@ func HarnessC19OPL() {
 	nw := &oplConfigWatcher{
 		logger:                 &logrusx.Logger{},
 		target:                 "dir",
-		files:                  configFiles{byPath: make(map[string]io.Reader)},
+		files:                  configFiles{byPath: make(map[string][]byte)},
 		memoryNamespaceManager: *NewMemoryNamespaceManager(),
 	}
 	if verifNative() {
@@ -143,6 +144,7 @@ func HarnessC19OPL() {
 		} else {
 			doc, names := verifDoc(f, k)
 			nw.handleChange(verifChange(verifFiles[f], doc))
+			st[f].invalidNow = names == nil
 			if names != nil {
 				st[f].lastValid = names
 				st[f].valid = append(st[f].valid, names)
@@ -156,16 +158,13 @@ func HarnessC19OPL() {
 			verifFail("C19: Namespaces() fails")
 			return
 		}
-		// classification for the known-findings file
-		files := 0
+		// classification for the known-findings file: is some file's latest
+		// content invalid (which blocks the whole reload) or are all valid?
+		tag := "all-files-valid"
 		for _, s := range st {
-			if s.loaded || s.removed {
-				files++
+			if s.invalidNow && !s.removed {
+				tag = "some-file-invalid"
 			}
-		}
-		tag := "single-file"
-		if files > 1 {
-			tag = "several-files"
 		}
 		verifTag(tag)
 		verifNote("events: " + trace)
